@@ -19,9 +19,27 @@ def _replay_profile():
     return {'reproduced': bool(fails), 'detail': '; '.join(fails[:3]) or 'constructor stores what it is given'}
 
 
+def _replay_clone():
+    cl = rf.load_cluster()
+    s = cl.Session.__new__(cl.Session)
+    base = cl.ExecutionProfile(load_balancing_policy='L', consistency_level=6, serial_consistency_level=8, request_timeout=2.5)
+    s._maybe_get_execution_profile = lambda ep: ep
+    fails = []
+    for upd in ({'serial_consistency_level': None}, {'request_timeout': None}, {'request_timeout': 0.0}, {'consistency_level': 0}, {'serial_consistency_level': 9, 'request_timeout': 7.0}):
+        c = s.execution_profile_clone_update(base, **upd)
+        for k, v in upd.items():
+            if getattr(c, k) != v or (v is None) != (getattr(c, k) is None):
+                fails.append('clone_update(%s=%r) gives a profile with %s=%r' % (k, v, k, getattr(c, k)))
+        if base.serial_consistency_level != 8 or base.request_timeout != 2.5:
+            fails.append('the base profile was changed')
+    return {'reproduced': bool(fails), 'detail': '; '.join(fails[:3]) or 'derived profiles hold the given values'}
+
+
 def replay(model, obligation):
     if 'ExecutionProfile.__init__' in obligation:
         return _replay_profile()
+    if 'execution_profile_clone_update' in obligation:
+        return _replay_clone()
     cl = rf.load_cluster()
     from cassandra.query import SimpleStatement, FETCH_SIZE_UNSET
     from cassandra.policies import RetryPolicy
